@@ -170,6 +170,7 @@ func (w *Worker) newPath(prefix []Decision) *pathState {
 		funcs:    map[string]bool{},
 		side:     map[interface{}]interface{}{},
 		memo:     map[string]value{},
+		decided:  map[int]bool{},
 		maxSteps: w.cfg.MaxSteps,
 		maxDepth: w.cfg.MaxDepth,
 	}
